@@ -177,7 +177,7 @@ def driver(name):
 # ------------------------------------------------------------------ builds of /repo
 def repo_build(cfg='verif', targets=('parsec', 'parsec-ptgpp')):
     """(Re)build /repo's current working tree out-of-tree with the hooks on.  Incremental."""
-    b = os.path.join(WORK, 'build-' + cfg)
+    b = os.path.join(WORK, 'build-' + cfg + ('' if REPO == '/repo' else '-' + hashlib.md5(REPO.encode()).hexdigest()[:8]))
     flags = '-Wno-error -DPARSEC_VERIF'
     extra = []
     if cfg == 'verif-prof':
